@@ -1,7 +1,7 @@
 (* Request dispatcher of the extracted model runner (glue for the
    correspondence check; no theorem depends on this file). *)
 From GB Require Import Base.Prelude Base.DecText Base.Sexp.
-From GB Require Import Model.Header Spec.EncHeader Model.DispatchCell.
+From GB Require Import Model.Header Spec.EncHeader Model.DispatchCell Model.Json Model.DispatchJson.
 From GB Require Import Model.DispatchGtid Model.DispatchMarshal Model.DispatchStream Model.DispatchConn.
 From Coq Require Import String.
 Open Scope Z_scope.
@@ -45,10 +45,10 @@ Fixpoint first_some (fs : list (bytes -> list val -> option val)) (op : bytes) (
   end.
 
 (* registered sub-dispatchers (one per model family) *)
-(* JSON printer used by cells of type JSON; replaced by Model/Json.v when present *)
-Definition jsonp_stub (b : bytes) : res bytes := Err EJson.
+(* JSON printer used by cells of type JSON: Model/Json.v with the E64 oracle marker *)
+Definition jsonp (b : bytes) : res bytes := print_json efmt_marker b.
 
-Definition subs : list (bytes -> list val -> option val) := [dispatch_cell jsonp_stub; dispatch_stream jsonp_stub; dispatch_enc; dispatch_conn; dispatch_gtid; dispatch_marshal].
+Definition subs : list (bytes -> list val -> option val) := [dispatch_cell jsonp; dispatch_json; dispatch_stream jsonp; dispatch_enc; dispatch_conn; dispatch_gtid; dispatch_marshal].
 
 Definition dispatch (op : bytes) (args : list val) : val :=
   match first_some subs op args with
